@@ -467,8 +467,8 @@ theorem exV_ok : OK exV where
 
 theorem okV' : OK exV' := (stepB_pf ([] : PF T) (1, 1) exB exV_ok).1
 
-theorem LV : Laws (nodes exV) (IsRoot exV) := laws_of_ok crT exV_ok
-theorem LV' : Laws (nodes exV') (IsRoot exV') := laws_of_ok crT okV'
+theorem LV : Laws (nodes exV) (IsRoot exV) := laws_of_ok crT.toNZ exV_ok
+theorem LV' : Laws (nodes exV') (IsRoot exV') := laws_of_ok crT.toNZ okV'
 
 theorem rootV' (z : Pos) : IsRoot exV' z ↔ z = (2, 0) := by
   unfold IsRoot exV'
